@@ -276,3 +276,68 @@ Theorem C12_initial_phase_space_record_witness :
   g1 (run nosig (DriverPS0P.ps0_cfg 0) main_prog DriverPS0P.ps0_start) = g1 (run nosig (DriverPS0P.ps0_cfg 1) main_prog DriverPS0P.ps0_start).
 Proof. exact DriverPS0P.initial_ps_record_differs. Qed.
 Print Assumptions C12_initial_phase_space_record_witness.
+
+(** ** (family st3drv, seeds C12-I / C12-J) two facts about the code OUTSIDE main() that the statements above rely on when
+    they treat the grid state [g] as the whole state of the simulation and an observer block as a function of it.
+
+    (1) The projections are functions of the grid alone (Proofs/ProjectionPurityP.v over Gen/Gen_Moments.v, regenerated
+    from src/PS/PhaseSpace.cpp on every run): the driver model's "updateXProjection after every step" reads nothing that
+    an observer block (updateYProjection, the moments, the records) left behind.  A member carrying a row range / a dirty
+    flag from one call to a later one is refused by translate/moments2coq.py and would break these statements. *)
+From Inovesa Require Model.MomentsIR Gen.Gen_Moments Proofs.ProjectionPurityP.
+Module ProjectionPurity.
+Import FieldKit MomentsIR Gen_Moments ProjectionPurityP.
+
+Theorem C12_xprojection_function_of_grid_source :
+  forall (K : Fld) (E : env K) (d : Z -> Z -> Z -> K) p p' f f' (i i' : K) m m' b x,
+    (0 <= b < e_nb E)%Z -> (0 <= x < e_nx E)%Z ->
+    m_proj (gen_updateXProjection K E (mkMst K d p f i m)) 0 b x =
+    m_proj (gen_updateXProjection K E (mkMst K d p' f' i' m')) 0 b x.
+Proof. exact xprojection_function_of_grid. Qed.
+Print Assumptions C12_xprojection_function_of_grid_source.
+
+Theorem C12_yprojection_function_of_grid_source :
+  forall (K : Fld) (E : env K) (d : Z -> Z -> Z -> K) p p' f f' (i i' : K) m m' b y,
+    (0 <= b < e_nb E)%Z -> (0 <= y < e_ny E)%Z ->
+    m_proj (gen_updateYProjection K E (mkMst K d p f i m)) 1 b y =
+    m_proj (gen_updateYProjection K E (mkMst K d p' f' i' m')) 1 b y.
+Proof. exact yprojection_function_of_grid. Qed.
+Print Assumptions C12_yprojection_function_of_grid_source.
+
+(** the bunch profile after a step is the same whether or not the energy profile was computed in between *)
+Theorem C12_xprojection_ignores_energy_profile_calls_source :
+  forall (K : Fld) (E : env K) (s : mst K) b x,
+    (0 <= b < e_nb E)%Z -> (0 <= x < e_nx E)%Z ->
+    m_proj (gen_updateXProjection K E (gen_updateYProjection K E s)) 0 b x = m_proj (gen_updateXProjection K E s) 0 b x.
+Proof. exact xprojection_ignores_yprojection_calls. Qed.
+Print Assumptions C12_xprojection_ignores_energy_profile_calls_source.
+End ProjectionPurity.
+
+(** (2) Nothing in src/, inc/ or the CMake files changes the floating-point environment (Gen/Gen_FPEnv.v,
+    translate/fpenv2coq.py: lexical scan on every run for <cfenv> writers, SSE control-register intrinsics / macros, x87
+    and MSVC control-word functions, FP pragmas, optimize attributes, control-word loads in inline assembly, fast-math
+    style compiler options).  With that, the arithmetic of step k is one function of its operands whatever ran before -
+    in particular whatever observer blocks ran ([C12_run_value_independent_of_observer_cadence], an abstract run: [eval]
+    one step under an environment, observer blocks that leave the environment alone); the example shows the dependence a
+    block that switches to flush-to-zero creates between the cadence "never" and every other. *)
+From Inovesa Require Model.FPEnv Gen.Gen_FPEnv Proofs.FPEnvP.
+Module FPEnvironment.
+Import FPEnv Gen_FPEnv FPEnvP.
+
+Theorem C12_no_site_changes_fp_environment :
+  fpenv_sites = [] /\ fpenv_fixed fpenv_sites = true /\ (0 < fpenv_files_scanned)%Z.
+Proof. exact (conj fpenv_sites_empty fpenv_is_fixed). Qed.
+Print Assumptions C12_no_site_changes_fp_environment.
+
+Theorem C12_run_value_independent_of_observer_cadence :
+  forall (Env Val : Type) (eval : Env -> Val -> Val) (o1 o2 : nat -> bool) (n k : nat) (e : Env) (x : Val),
+    run Env Val eval (fun e => e) o1 n k e x = run Env Val eval (fun e => e) o2 n k e x.
+Proof. exact run_cadence_independent. Qed.
+Print Assumptions C12_run_value_independent_of_observer_cadence.
+
+Example C12_run_depends_on_cadence_when_environment_changes :
+  let eval := fun (ftz : bool) (x : Z) => if ftz then (if (Z.abs (x / 2) <? 2)%Z then 0%Z else (x / 2)%Z) else (x / 2)%Z in
+  run bool Z eval (fun _ => true) (fun _ => false) 2 0 false 4%Z = 1%Z /\
+  run bool Z eval (fun _ => true) (fun k => Nat.eqb k 0) 2 0 false 4%Z = 0%Z.
+Proof. exact run_depends_on_cadence_example. Qed.
+End FPEnvironment.
